@@ -588,9 +588,31 @@ Spec == Init /\ [][Next]_vars
 (* bounded-depth exploration for the wide two-pool universe *)
 DepthConstraint == TLCGet("level") <= MaxSteps
 
-(* Generator *)
+(* Generator: TLC as a source of behaviours to replay on the real code.  In
+   simulation mode every step enumerates all successors, so the dimensions that
+   do not shape the arithmetic (sender, recipient, deadline, minima) are drawn
+   with RandomElement and only denominations and amounts are enumerated. *)
 Rejects(h) == Cardinality({i \in DOMAIN h : ~h[i].ok})
-GenNext == Next /\ (ev'.ok \/ Rejects(hist) < 3)
+GenActs(who, to, dl, lo, lo2) ==
+  \/ \E d \in Tokens, x \in Amts, m \in Amts :
+       Step([Ev("AddLiquidity", who) EXCEPT !.denom = d, !.amt = x, !.amt2 = m, !.min1 = lo, !.deadline = dl])
+  \/ \E l \in Lpts, x \in Liqs :
+       Step([Ev("RemoveLiquidity", who) EXCEPT !.denom = l, !.amt = x, !.min1 = lo, !.min2 = lo2, !.deadline = dl])
+  \/ \E d \in Tokens, x \in Amts : \E tk \in {d, Std} :
+       Step([Ev("AddUnilateral", who) EXCEPT !.denom = d, !.tok = tk, !.amt = x, !.min1 = lo, !.deadline = dl])
+  \/ \E d \in Tokens, x \in Liqs : \E tk \in {d, Std} :
+       Step([Ev("RemoveUnilateral", who) EXCEPT !.denom = d, !.tok = tk, !.amt = x, !.min1 = lo + 1, !.deadline = dl])
+  \/ \E i \in {Std} \cup Tokens, o \in {Std} \cup Tokens, x \in Amts, y \in Amts, buy \in BOOLEAN :
+       /\ i # o
+       /\ Step([Ev("Swap", who) EXCEPT !.to = to, !.inDenom = i, !.outDenom = o, !.amt = x, !.amt2 = y,
+                  !.isBuy = buy, !.deadline = dl, !.hops = IF i # Std /\ o # Std THEN 2 ELSE 1])
+  \/ \E d \in {Std} \cup Tokens, a \in Donations :
+       Step([Ev("Donate", who) EXCEPT !.to = RandomElement(Escs), !.denom = d, !.amt = a])
+  \/ EndBlock
+GenNext ==
+  /\ GenActs(RandomElement(Senders), RandomElement(Recipients), RandomElement(Deadlines),
+             RandomElement(Mins), RandomElement(Mins))
+  /\ (ev'.ok \/ 4 * (Rejects(hist) + 1) <= Len(hist) + 1)   \* at most a quarter rejected
 GenSpec == Init /\ [][GenNext]_vars
 GenDepth == atoi(IOEnv.GEN_DEPTH)
 GenConstraint ==
